@@ -154,6 +154,11 @@ func RenderWithLines(p *Program, l Layout) (string, map[int]int) {
 		if len(im.Items) > 0 {
 			s += r.dot() + strings.Join(im.Items, "、")
 		}
+		// 导入 statements are separated like other statements: by a line break or by ；
+		if r.l.Semis && len(r.lines) > 0 && strings.HasPrefix(r.lines[len(r.lines)-1], "导入") && r.l.coin() {
+			r.lines[len(r.lines)-1] += r.l.p("；", ";") + s
+			continue
+		}
 		r.push(s)
 	}
 	if len(p.Inputs) > 0 {
